@@ -26,7 +26,40 @@ static uint64_t digest(bool withSpBest = true) {
   sum = mixh(sum, t.appliedBlockCount * 64 + (withSpBest ? t.vbk().appliedBlockCount : 0));
   return sum;
 }
-#ifdef UNEQUAL
+#ifdef REFS
+// C01 variant: one BTC block is referenced by VTBs at two different VBK heights from two ALT forks; B was fully validated
+// earlier, A is active, then B wins comparePopScore(A,B): A is unapplied underneath the still applied B.  Afterwards the BTC
+// reference heights must be exactly those of chain B alone (what an instance that only ever saw B holds).
+extern "C" __attribute__((noinline)) void h_realsp() {
+  RealWorld& w = newRealWorld();
+  W = &w;
+  AltBlockTree& t = *w.alt;
+  mineVbk(w, 1); mineVbk(w, 2); mineVbk(w, 3);                  // VBK 2,3,4 (heights 1,2,3)
+  mineBtc(w, 1);                                                 // BTC 2
+  addAltHeader(w, 2, 1); addAltHeader(w, 3, 2); addAltHeader(w, 4, 3); addAltHeader(w, 5, 2); addAltHeader(w, 6, 5);
+  PopData p2; p2.context = {w.vbkById[2], w.vbkById[3], w.vbkById[4]};
+  uint32_t hiA = verif_choice(3, 4), hiB = verif_choice(3, 4);   // containing VBK blocks of the two VTBs (heights 2 or 3)
+  verif_assume(hiA != hiB);
+  PopData a3, a4, b5, b6;
+  a3.vtbs.push_back(makeVTB(w, 2, (uint8_t)hiA, 2, 2, 1));
+  b5.vtbs.push_back(makeVTB(w, 2, (uint8_t)hiB, 2, 2, 2));
+  b6.atvs.push_back(makeATV(w, 5, 5, 2, 1));                      // B's keystone block 5 is endorsed: B wins the POP comparison
+  t.acceptBlock(altHash(2), p2); t.acceptBlock(altHash(3), a3); t.acceptBlock(altHash(4), a4); t.acceptBlock(altHash(5), b5); t.acceptBlock(altHash(6), b6);
+  ValidationState s0, s1;
+  verif_check(t.setState(altHash(6), s0), 1);                     // B validated on its own
+  verif_check(t.setState(altHash(4), s1), 2);                     // A active
+  int r = t.comparePopScore(altHash(4), altHash(6));
+  verif_check(r < 0, 3);                                          // B (endorsed keystone) wins
+  verif_check(t.getBestChain().tip()->getHash()[0] == 6, 4);
+  auto* b2 = t.btc().getBlockIndex(w.btcById[2].getHash());
+  verif_check(b2 != nullptr && b2->getRefs().size() == 1 && b2->getRefs()[0] == (int)hiB - 1, 5);   // exactly B's reference height remains
+  ValidationState s2;
+  verif_check(t.setState(altHash(4), s2), 6);
+  auto* b2b = t.btc().getBlockIndex(w.btcById[2].getHash());
+  verif_check(b2b != nullptr && b2b->getRefs().size() == 1 && b2b->getRefs()[0] == (int)hiA - 1, 7);
+  if (hiA > hiB) verif_cover(1); else verif_cover(2);
+}
+#elif defined(UNEQUAL)
 // C01 variant: X = 2-3-5 is heavier than Y = 2-4; a VTB endorsing Y's keystone block makes Y win POP fork resolution of VBK while
 // chain B is applied; after leaving B the VBK best chain is determined by the chain alone (no tie) and must be X again, exactly
 // as in an instance that only ever saw chain A.
